@@ -74,6 +74,7 @@ func (ex *Exec) step(st *State, fr *Frame, ins ssa.Instruction) {
 			mi := ex.mapInfo(x.X.Type())
 			s := ArrS(mi.ksort, SBool)
 			st.ghost[fmt.Sprintf("$visited_%p", x)] = Sc{fmt.Sprintf("((as const %s) false)", s), s}
+			st.ghost[fmt.Sprintf("$vcount_%p", x)] = Sc{z64(), BV(64)}
 			ex.curRange = x
 		}
 	case *ssa.Next:
@@ -116,9 +117,51 @@ func (ex *Exec) selText(pos token.Pos, base ssa.Value) string {
 	return s
 }
 
+// cellLike: a local that the SSA builder put on the heap only because a
+// closure captures it, where that closure is passed straight to sort.Slice
+// (which calls it synchronously and does not retain it). Such a local is
+// private to the activation and is modelled as a cell.
+func cellLike(x *ssa.Alloc) bool {
+	if !x.Heap || x.Referrers() == nil {
+		return false
+	}
+	sawClosure := false
+	for _, r := range *x.Referrers() {
+		switch u := r.(type) {
+		case *ssa.UnOp:
+			if u.Op != token.MUL {
+				return false
+			}
+		case *ssa.Store:
+			if u.Addr != x {
+				return false // the address itself is stored somewhere
+			}
+		case *ssa.DebugRef:
+		case *ssa.MakeClosure:
+			sawClosure = true
+			if u.Referrers() == nil {
+				return false
+			}
+			for _, cr := range *u.Referrers() {
+				call, ok := cr.(*ssa.Call)
+				if !ok {
+					return false
+				}
+				fn, ok := call.Call.Value.(*ssa.Function)
+				if !ok || fn.Pkg == nil || fn.Pkg.Pkg.Path() != "sort" || (fn.Name() != "Slice" && fn.Name() != "SliceStable") {
+					return false
+				}
+			}
+		default:
+			return false
+		}
+	}
+	return sawClosure
+}
+
 func (ex *Exec) doAlloc(st *State, fr *Frame, x *ssa.Alloc) {
 	t := x.Type().Underlying().(*types.Pointer).Elem()
-	if !x.Heap {
+	if !x.Heap || cellLike(x) {
 		st.cells[x] = zeroVal(t)
 		fr.regs[x] = &PtrI{&Addr{Kind: ACell, Cell: x, ArrLen: -1}}
 		return
@@ -386,7 +429,65 @@ func (ex *Exec) makeMap(st *State, t types.Type) Val {
 	ex.setComp(st, mi.domK, mi.domS, sto(dom, r, fmt.Sprintf("((as const %s) false)", ArrS(mi.ksort, SBool))))
 	card := ex.comp(st, mi.cardK, mi.cardS)
 	ex.setComp(st, mi.cardK, mi.cardS, sto(card, r, z64()))
+	if gs := ex.ghostSumFor(t); gs != nil {
+		ex.assume(st, eq(app(ex.sumFn(gs, mi), fmt.Sprintf("((as const %s) false)", ArrS(mi.ksort, SBool))), z64()))
+	}
 	return Sc{r, SRef}
+}
+
+// ghostSumFor finds a declared ghost sum for the map type.
+func (ex *Exec) ghostSumFor(mt types.Type) *GhostSum {
+	if len(ex.db.sums) == 0 || ex.topFrame == nil || ex.topFrame.entry == nil {
+		return nil
+	}
+	key := mt.Underlying().String()
+	if gs, ok := ex.sumCache[key]; ok {
+		return gs
+	}
+	gs := ex.ghostSumLookup(mt)
+	ex.sumCache[key] = gs
+	return gs
+}
+
+func (ex *Exec) ghostSumLookup(mt types.Type) *GhostSum {
+	for _, gs := range ex.db.sums {
+		c := &evalCtx{ex: ex, fr: ex.topFrame, env: map[string]TVal{}, lets: map[string]Expr{}}
+		for f := ex.top; f != nil; f = f.Parent() {
+			if f.Pkg != nil {
+				c.pkg = f.Pkg.Pkg
+				break
+			}
+		}
+		if p := c.findPkg(gs.Pkg); p != nil {
+			c.pkg = p
+		}
+		t := func() (t types.Type) {
+			defer func() { recover() }()
+			return c.resolveType(gs.MapType)
+		}()
+		if t != nil && types.Identical(t.Underlying(), mt.Underlying()) {
+			return gs
+		}
+	}
+	return nil
+}
+
+func (ex *Exec) sumFn(gs *GhostSum, mi *mapComps) string {
+	fn := "Sum_" + gs.Name
+	ex.vc.DeclareFun(fn, []Sort{ArrS(mi.ksort, SBool)}, BV(64))
+	return fn
+}
+
+// sumWeight evaluates the weight expression of a ghost sum at key k.
+func (ex *Exec) sumWeight(st *State, gs *GhostSum, mi *mapComps, k string) string {
+	c := ex.newCtx(ex.topFrame, st, st, nil)
+	c.env = map[string]TVal{"k": {V: Sc{k, mi.ksort}, T: mi.kt}}
+	c.lets = map[string]Expr{}
+	if p := c.findPkg(gs.Pkg); p != nil {
+		c.pkg = p
+	}
+	v := c.coerce(c.eval(gs.Weight), types.Typ[types.Int])
+	return sc(v.V).T
 }
 
 func (ex *Exec) mapSet(st *State, mt types.Type, m, k string, v Val) {
@@ -394,6 +495,12 @@ func (ex *Exec) mapSet(st *State, mt types.Type, m, k string, v Val) {
 	domAll := ex.comp(st, mi.domK, mi.domS)
 	dom := sel(domAll, m)
 	was := sel(dom, k)
+	if gs := ex.ghostSumFor(mt); gs != nil {
+		fn := ex.sumFn(gs, mi)
+		ndom := sto(dom, k, "true")
+		ex.assume(st, eq(app(fn, ndom), ite(was, app(fn, dom), app("bvadd", app(fn, dom), ex.sumWeight(st, gs, mi, k)))))
+		ex.vc.Trust("ghost sum " + gs.Name + ": insert/delete unfoldings of a finite sum over the map domain")
+	}
 	card := ex.comp(st, mi.cardK, mi.cardS)
 	ex.setComp(st, mi.cardK, mi.cardS, sto(card, m, ite(was, sel(card, m), app("bvadd", sel(card, m), bvInt(1, 64)))))
 	ex.setComp(st, mi.domK, mi.domS, sto(domAll, m, sto(dom, k, "true")))
@@ -407,6 +514,15 @@ func (ex *Exec) mapDelete(st *State, mt types.Type, m, k string) {
 	domAll := ex.comp(st, mi.domK, mi.domS)
 	dom := sel(domAll, m)
 	was := and(not(eq(m, z64())), sel(dom, k))
+	if gs := ex.ghostSumFor(mt); gs != nil {
+		fn := ex.sumFn(gs, mi)
+		ndom := sto(dom, k, "false")
+		w := ex.sumWeight(st, gs, mi, k)
+		ex.assume(st, eq(app(fn, ndom), ite(sel(dom, k), app("bvsub", app(fn, dom), w), app(fn, dom))))
+		// a finite sum of non-negative weights is at least each of its terms and
+		// stays non-negative when a term is removed
+		ex.assume(st, implies(and(sel(dom, k), app("bvsge", w, z64()), app("bvsge", app(fn, dom), z64())), and(app("bvsge", app(fn, dom), w), app("bvsge", app(fn, ndom), z64()))))
+	}
 	card := ex.comp(st, mi.cardK, mi.cardS)
 	ex.setComp(st, mi.cardK, mi.cardS, sto(card, m, ite(was, app("bvsub", sel(card, m), bvInt(1, 64)), sel(card, m))))
 	// deleting from a nil map is a no-op
@@ -445,6 +561,18 @@ func (ex *Exec) doNext(st *State, fr *Frame, x *ssa.Next) {
 		// every key visited so far is (still) being iterated: it was in the map
 		st.ghost[gk] = Sc{ex.vc.Bind("visited", ArrS(mi.ksort, SBool), ite(ok, sto(sc(vis).T, k, "true"), sc(vis).T)), ArrS(mi.ksort, SBool)}
 		st.ghost["$curkey"] = Sc{k, mi.ksort}
+		// a range over a map that is not modified meanwhile produces every key
+		// exactly once: when it stops, all keys were visited and their number is
+		// the map's cardinality
+		ck := fmt.Sprintf("$vcount_%p", rng)
+		if cnt, has := st.ghost[ck]; has {
+			card := sel(ex.comp(st, mi.cardK, mi.cardS), m)
+			ex.assume(st, implies(not(ok), and(eq(sc(cnt).T, card),
+				fmt.Sprintf("(forall ((qk %s)) (! (=> (select %s qk) (select %s qk)) :pattern ((select %s qk))))", mi.ksort, ex.mapDom(st, mi, m), sc(vis).T, ex.mapDom(st, mi, m)))))
+			ex.assume(st, app("bvsle", sc(cnt).T, card))
+			st.ghost[ck] = Sc{ex.vc.Bind("vcount", BV(64), ite(ok, app("bvadd", sc(cnt).T, bvInt(1, 64)), sc(cnt).T)), BV(64)}
+			ex.vc.Trust("range over a map not modified during the iteration visits each key exactly once (count = cardinality at the end)")
+		}
 	}
 	v := ex.bindVal("rangeval", ex.mapGetRaw(st, mt, m, k))
 	ex.validRefs(st, v, mi.vt)
